@@ -45,6 +45,7 @@ UNIT = {
     'property': 'C02',
     'rlimit': 60,
     'verus_args': ['--edition=2024'],
+    'controls': 'auto',
     'vacuity_floor': 1,
     'items': [
         ('@raw', 'pub mod fc {\n' + MOD_HEAD),
